@@ -8,10 +8,12 @@ import (
 	"sort"
 	"strings"
 	"sync"
+	"sync/atomic"
 
 	"golang.org/x/tools/go/ssa"
 )
 
+var machineSeq int32
 var siteStats map[string]int
 var siteMu sync.Mutex
 
@@ -99,8 +101,15 @@ type Machine struct {
 	intr   map[*ssa.Function]intrinsicFn
 	noIntr map[*ssa.Function]bool
 
+	id          int
+	cfuncs      map[*ssa.Function]*cfunc
+	slab        []Value
+	sp          int
+	frames      []*frame
+	nframes     int
 	mapOrderAll bool
 	concCap     int
+	stubSet     map[string]bool
 }
 
 func NewMachine(p *Program) *Machine {
@@ -120,8 +129,11 @@ func NewMachine(p *Program) *Machine {
 		noIntr:          map[*ssa.Function]bool{},
 		cover:           map[*ssa.Function]bool{},
 		concCap:         64,
+		cfuncs:          map[*ssa.Function]*cfunc{},
+		slab:            make([]Value, 1<<16),
 	}
 	m.epoch = 1
+	m.id = int(atomic.AddInt32(&machineSeq, 1))
 	if rt := p.pkgs["runtime"]; rt != nil {
 		m.runtimeErrT = rt.Type("errorString").Type()
 	}
@@ -345,6 +357,11 @@ func (m *Machine) concretize(b BV, why string) uint64 {
 	}
 	if !m.ensureModel() {
 		m.unsupported("concretize without model (%s)", why)
+	}
+	if siteStats != nil {
+		siteMu.Lock()
+		siteStats["concretize "+why+" "+firstLines(m.where(m.cur), 4)]++
+		siteMu.Unlock()
 	}
 	v0 := m.evalUnder(b.T)
 	block := []*Term{tc.Not(tc.Eq(b.T, tc.Const(w, v0)))}
